@@ -23,6 +23,19 @@ def presence_formula(g, a, b, t, removal, maxsnap=None):
     return z3.And(r != 0, S[0] <= t, t <= maxsnap)
 
 
+def maxsnap_of(ctx, g):
+    """ghost: the largest snapshot id of g (one constant per graph state; vacuous when there is no snapshot)"""
+    key = ('maxsnap', g.name, g['SKey'].get_id())
+    cache = ctx.__dict__.setdefault('_maxsnap', {})
+    if key not in cache:
+        m = fresh('maxsnap', Int)
+        q = z3.Int('q?mx')
+        SK = g['SKey']
+        ctx.assume(FA([q], z3.Implies(SK[q], z3.And(SK[m], q <= m)), [SK[q]]))
+        cache[key] = m
+    return cache[key]
+
+
 class _Observer(Contract):
     def __init__(self, cls, bound_n=None):
         self.cls = cls
@@ -127,6 +140,11 @@ class PresenceTest(_Observer):
         ctx = interp.ctx
         removal = z3.is_true(g['ER'])
         r, n, S, E = spec.tl(g, u.z, v.z)
+        if getattr(interp, 'pure_calls', False):
+            # closed form (used while an expression is evaluated for a GENERIC element): the contract's right-hand side itself
+            if removal:
+                return presence_formula(g, u.z, v.z, t.z, True)
+            return presence_formula(g, u.z, v.z, t.z, False, maxsnap_of(ctx, g))
         b = fresh('present', Bool)
         if removal:
             w = fresh('w', Int)
